@@ -51,6 +51,46 @@ func cmdSweep(args []string) int {
 				continue
 			}
 			switch kind {
+			case "noop-before-return":
+				// `_ = 0` in front of every return statement that is a direct element of a block
+				ast.Inspect(fd.Body, func(n ast.Node) bool {
+					var list []ast.Stmt
+					switch x := n.(type) {
+					case *ast.BlockStmt:
+						list = x.List
+					case *ast.CaseClause:
+						list = x.Body
+					case *ast.FuncLit:
+						return false
+					}
+					for _, st := range list {
+						if _, isRet := st.(*ast.ReturnStmt); isRet {
+							offs = append(offs, fset.Position(st.Pos()).Offset)
+						}
+					}
+					return true
+				})
+			case "noop-each":
+				// `_ = 0` in front of every statement that is a direct element of a block or case clause
+				ast.Inspect(fd.Body, func(n ast.Node) bool {
+					var list []ast.Stmt
+					switch x := n.(type) {
+					case *ast.BlockStmt:
+						list = x.List
+					case *ast.CaseClause:
+						list = x.Body
+					case *ast.FuncLit:
+						return false
+					}
+					for _, st := range list {
+						switch st.(type) {
+						case *ast.LabeledStmt, *ast.CaseClause, *ast.CommClause:
+							continue
+						}
+						offs = append(offs, fset.Position(st.Pos()).Offset)
+					}
+					return true
+				})
 			case "noop-first":
 				offs = append(offs, fset.Position(fd.Body.Lbrace).Offset+1)
 			case "noop-last":
@@ -74,7 +114,11 @@ func cmdSweep(args []string) int {
 		for _, o := range offs {
 			b.Reset()
 			b.Write(out[:o])
-			b.WriteString("\n_ = 0\n")
+			if kind == "noop-before-return" || kind == "noop-each" {
+				b.WriteString("_ = 0\n")
+			} else {
+				b.WriteString("\n_ = 0\n")
+			}
 			b.Write(out[o:])
 			out = append([]byte(nil), b.Bytes()...)
 		}
@@ -89,6 +133,9 @@ func cmdSweep(args []string) int {
 	ff, _ := core.LoadFindings(filepath.Join(envOr("NPVERIF_DIR", "/verif"), "known_findings.json"))
 	bad := 0
 	for _, pr := range props.All() {
+		if only := os.Getenv("NPVERIF_SWEEP_PROP"); only != "" && pr.ID != only {
+			continue
+		}
 		rep := runProperty(pr, prog)
 		for _, o := range rep.Obs {
 			if o.Status == core.Discharged || o.Status == core.Excepted {
@@ -192,6 +239,9 @@ func cmdSweepRename() int {
 	ff, _ := core.LoadFindings(filepath.Join(envOr("NPVERIF_DIR", "/verif"), "known_findings.json"))
 	bad := 0
 	for _, pr := range props.All() {
+		if only := os.Getenv("NPVERIF_SWEEP_PROP"); only != "" && pr.ID != only {
+			continue
+		}
 		rep := runProperty(pr, prog2)
 		for _, o := range rep.Obs {
 			if o.Status == core.Discharged || o.Status == core.Excepted {
